@@ -186,21 +186,29 @@ def add_pkey_move(rng, case):
     return case
 
 
-def run_client_life(wd, cdm, cworld, limit, nloops, day, retention=0, purge_at_end=False):
+def run_client_life(wd, cdm, cworld, limit, nloops, day, retention=0, purge_at_end=False, prev_limit=None, first=None):
     import clidrv
     conf = clidrv.client_config(wd, cdm, trashbin_retention=retention, foreignkeys_policy="on_remove_event",
                                 autoremediation="disabled")
     cl = clidrv.start_client(wd, conf, cworld, logsink=cworld.get("logsink"))
 
     def before(i, it):
-        cworld["limit"] = limit
+        # the first iteration of a life that follows another one sees no new event: what it does is
+        # the datamodel update (and the retry of what was queued)
+        cworld["limit"] = prev_limit if (i == 0 and prev_limit is not None) else limit
         if cworld.get("iter_hook"):
             cworld["iter_hook"](i)
+
+    def after(i, it):
+        if i == 0 and first is not None:
+            first["snap"] = clicase.snapshot(cl)
+            first["ncalls"] = len(cworld["calls"])
+        return False
     its = [{"now": EPOCH + datetime.timedelta(days=day)}] * nloops
     if purge_at_end and retention:
         # two more iterations once every retention is over: the trashbin empties
         its = its + [{"now": EPOCH + datetime.timedelta(days=day + retention + 5)}] * 2
-    clidrv.run_segment(cl, its, before, lambda i, it: False)
+    clidrv.run_segment(cl, its, before, after)
     snap = clicase.snapshot(cl)
     try:
         cl._GenericClient__sock._cleanup()
@@ -249,19 +257,26 @@ def run_case(case, wd):
             return True
         return True if (faults["on"] and rng.random() < case["p_fail"]) else None
     cworld = {"bus": [], "next": 1, "calls": [], "ncall": 0, "failfn": failfn, "logsink": [] if os.environ.get("EVO_LOG") else None}
-    snaps, marks = [], []
+    snaps, marks, remaps = [], [], []
     for pi, (cfg, cdm, polls) in enumerate(phases):
+        prev_limit = len(world["bus"]) if pi > 0 else None
         server_run(wd + "/srv", cfg, polls, world, pi == 0)
         marks.append(len(world["bus"]))
         cworld["bus"] = as_bus(world)
         cworld["next"] = len(world["bus"]) + 1
         last = pi == len(phases) - 1
         faults["on"] = not last
-        # the purely local entries keep failing during the first loop iteration of the last phase:
-        # they are still queued when the dataschema event (key move) is consumed
-        cworld["iter_hook"] = (lambda i: faults.__setitem__("local", i == 0)) if last else (lambda i: faults.__setitem__("local", False))
-        snaps.append(run_client_life(wd + "/cli", cdm, cworld, len(world["bus"]), 8 if last else 3, pi,
-                                     retention=case.get("retention", 0), purge_at_end=last))
+        # the purely local entries keep failing during the first two loop iterations of the last phase
+        # (the datamodel update, then the first one that sees new events): they are still queued when
+        # the dataschema event (key move) is consumed
+        cworld["iter_hook"] = (lambda i: faults.__setitem__("local", i <= 1)) if last else (lambda i: faults.__setitem__("local", False))
+        first, c0 = {}, len(cworld["calls"])
+        snaps.append(run_client_life(wd + "/cli", cdm, cworld, len(world["bus"]), (8 if last else 3) + (1 if pi > 0 else 0), pi,
+                                     retention=case.get("retention", 0), purge_at_end=last, prev_limit=prev_limit, first=first))
+        if pi > 0 and "snap" in first:
+            remaps.append({"phase": pi, "pre": snaps[pi - 1], "post": first["snap"],
+                           "calls": [c for c in cworld["calls"][c0:first["ncalls"]] if c["h"] != "on_save"],
+                           "cdm_old": phases[pi - 1][1], "cdm_new": cdm})
     n1 = marks[0]
     snapA, snapB = snaps[0], snaps[-1]
     evolved_calls = list(cworld["calls"])
@@ -280,7 +295,7 @@ def run_case(case, wd):
             if lvl in ("WARNING", "ERROR", "CRITICAL") or "atamodel" in msg:
                 print("   LOG", lvl, msg[:300])
     return {"bus": parse(world), "n1": n1, "snapA": snapA, "snapB": snapB, "fresh": fsnap, "snaps": snaps, "marks": marks,
-            "evolved_calls": evolved_calls, "fresh_calls": list(fcw["calls"]), "fbus": parse(fworld)}
+            "evolved_calls": evolved_calls, "fresh_calls": list(fcw["calls"]), "fbus": parse(fworld), "remaps": remaps}
 
 
 def target_of(calls):
@@ -407,3 +422,35 @@ def step_gallina(case, res):
     namesB = {t["name"] for t in case["cfgB"]["types"]}
     dropped = glist(gN(ctx.types[t["name"]]) for t in case["cfgA"]["types"] if t["name"] not in namesB)
     return f"(ECase {typesA} {dropped} {gcache} {observed})"
+
+
+def remap_gallina(case, res):
+    """one RCase per client restart under another client datamodel: the state the previous life
+    left (expected-state caches), the new mapping, the handler invocations and the local data of
+    the first loop iteration of the new life. Rendered only where the model applies: empty error
+    queue, trashbin off, every local type kept, nothing raised."""
+    out = []
+    for rm in res.get("remaps", []):
+        old, new = rm["cdm_old"], rm["cdm_new"]
+        pre, post = rm["pre"], rm["post"]
+        applies = (not case.get("retention") and not pre["queue"] and not post["queue"] and not pre["exc"] and not post["exc"]
+                   and set(old) <= set(new) and all(old[l]["hermesType"] == new[l]["hermesType"] for l in old) and old != new)
+        if not applies:
+            continue
+        # names: every type and attribute of the universe, every local name of both mappings
+        merged = {l: {"hermesType": d["hermesType"], "attrsmapping": dict(old.get(l, {}).get("attrsmapping", {}), **d["attrsmapping"])}
+                  for l, d in new.items()}
+        pseudo = {"cfg": case["full"], "cdm": merged, "retention": 0, "fkpolicy": "on_remove_event", "remediation": "disabled"}
+        ctx = clicase.CCtx(pseudo, {"bus": []})
+        # keys of composite types
+        for ds in (pre["remotedata_complete"], pre["localdata_complete"], post["localdata"]):
+            for tname, objs in ds.items():
+                for k in objs:
+                    if isinstance(k, (tuple, list)) and tuple(k) not in ctx.tup.map:
+                        ctx.tup.map[tuple(k)] = 1001 + len(ctx.tup.map)
+        cfg_new = ctx.gccfg(dict(pseudo, cdm=new))
+        calls = glist(ctx.gcall(c) for c in rm["calls"])
+        out.append("(RCase {} {} {} {} {})".format(
+            cfg_new, ctx.gworld(pre["remotedata_complete"], "", False), ctx.gworld(pre["localdata_complete"], "", True),
+            calls, ctx.gworld(post["localdata"], "", True)))
+    return out
